@@ -327,4 +327,22 @@ theorem dateRaw_succ (s : Int) (hs : 1 ≤ s) :
   rw [h1] at this
   exact this
 
+/-- `day(…, check = true)` accepts nothing but dates of the documented calendar -/
+theorem dayChecked_sound (y m d s : Int) (h : dayChecked y m d = some s) : Valid y m d ∧ s = dayRaw y m d := by
+  unfold dayChecked day date at h
+  by_cases hg1 : dayGuard y m d = true
+  · simp only [hg1, if_true] at h
+    by_cases hg2 : dateGuard (dayRaw y m d) = true
+    · simp only [hg2, if_true] at h
+      split at h
+      · rename_i hc
+        obtain ⟨hpos, h1, h2, h3⟩ := hc
+        have hs : s = dayRaw y m d := by simpa using h.symm
+        have hv := (dayRaw_dateRaw (dayRaw y m d) (by omega)).1
+        rw [← h1, ← h2, ← h3] at hv
+        exact ⟨hv, hs⟩
+      · simp at h
+    · simp [hg2] at h
+  · simp [hg1] at h
+
 end GeoVerif.Calendar
